@@ -85,6 +85,7 @@ class FakeConn:
         self.closed = False
         self.writes = []  # arguments of transport.write on the client side
         self.sent = []  # replies sent by the device
+        self.write_times = []  # wall clock (as the client sees it) at each write
 
     def poll(self):
         """Read whatever the client has written so far; returns number of new chunks."""
@@ -173,6 +174,7 @@ class VLoop(asyncio.SelectorEventLoop):
 
         def logged_write(data, _w=real_write, _c=conn):
             _c.writes.append(bytes(data))
+            _c.write_times.append(time.time())
             return _w(data)
 
         transport.write = logged_write
